@@ -426,6 +426,34 @@ def shrink_case(prop, case, still_fails, budget=400):
     still_fails(list of candidate cases) -> list of bool (runs both sides in one batch)."""
     best = case
     rounds = 0
+    if hasattr(prop, "rebuild") and isinstance(case.meta.get("data"), str):
+        # the property module knows how to rebuild all lines of a case from its input bytes
+        while rounds < 16:
+            rounds += 1
+            h = best.meta["data"]
+            if h == "-":
+                break
+            nbytes = len(h) // 2
+            cands = []
+            for cut in sorted(set([nbytes // 2, nbytes - 16, nbytes - 8, nbytes - 4, nbytes - 2, nbytes - 1])):
+                if 0 <= cut < nbytes:
+                    meta = dict(best.meta)
+                    meta["data"] = h[: cut * 2] if cut > 0 else "-"
+                    c = prop.rebuild(meta)
+                    if c is not None:
+                        cands.append(c)
+            if not cands:
+                break
+            verdicts = still_fails(cands)
+            picked = None
+            for c, v in zip(cands, verdicts):
+                if v:
+                    picked = c
+                    break
+            if picked is None:
+                break
+            best = picked
+        return best
     while rounds < 14:
         rounds += 1
         hexes = []
